@@ -213,3 +213,50 @@ def previewSegs (text : Str) (edits : List MEdit) (o : Opts) : List Seg :=
   Seg.plain (text.take r.1) :: r.2
 
 end Adeu.Markup
+
+/-! ### reading CriticMarkup back (the reader behind "reading the preview with every suggestion
+accepted / rejected") -/
+namespace Adeu.Markup
+open Adeu
+
+def openers : List (Str × Str × (Str → Seg)) :=
+  [("{--".toList, "--}".toList, Seg.del), ("{++".toList, "++}".toList, Seg.ins),
+   ("{==".toList, "==}".toList, Seg.hl), ("{>>".toList, "<<}".toList, Seg.note)]
+
+/-- split at the first occurrence of `pat`: (text before it, text after it) -/
+def splitAtFirst (pat : Str) : Str → Option (Str × Str)
+  | [] => if pat.isEmpty then some ([], []) else none
+  | c :: s =>
+      if pat.isPrefixOf (c :: s) then some ([], (c :: s).drop pat.length)
+      else (splitAtFirst pat s).map fun ab => (c :: ab.1, ab.2)
+
+def flushPlain (acc : Str) : List Seg := if acc.isEmpty then [] else [.plain acc]
+
+/-- scan left to right: an opener starts a block that runs to the first matching closer; everything
+else is plain text (`acc` collects it).  `none`: an opener without its closer. -/
+def parseFuel : Nat → Str → Str → Option (List Seg)
+  | 0, acc, r => if r.isEmpty then some (flushPlain acc) else none
+  | _ + 1, acc, [] => some (flushPlain acc)
+  | n + 1, acc, c :: r =>
+      match openers.find? (fun o => o.1.isPrefixOf (c :: r)) with
+      | some o =>
+          match splitAtFirst o.2.1 ((c :: r).drop 3) with
+          | some ir => (parseFuel n [] ir.2).map fun segs => flushPlain acc ++ o.2.2 ir.1 :: segs
+          | none => none
+      | none => parseFuel n (acc ++ [c]) r
+
+def parse (s : Str) : Option (List Seg) := parseFuel s.length [] s
+
+/-- the segment list a reader sees: adjacent plain pieces joined, empty ones dropped -/
+def normAcc : Str → List Seg → List Seg
+  | acc, [] => flushPlain acc
+  | acc, .plain s :: rest => normAcc (acc ++ s) rest
+  | acc, x :: rest => flushPlain acc ++ x :: normAcc [] rest
+
+def Seg.content : Seg → Str
+  | .plain s => s | .del s => s | .ins s => s | .hl s => s | .note s => s
+
+/-- no segment contains a brace (texts, targets, new texts and comments without CriticMarkup delimiters) -/
+def BraceFree (segs : List Seg) : Prop := ∀ sg ∈ segs, ∀ c ∈ sg.content, c ≠ '{' ∧ c ≠ '}'
+
+end Adeu.Markup
